@@ -288,8 +288,9 @@ class ClassView:
         return sorted(out)
 
     def validate_resets(self, roots):
-        """methods in the closure of `roots` that call `validate_data(self, ..)` without the literal `reset=False`: sklearn's
-        default `reset=True` REWRITES `n_features_in_` / `feature_names_in_` of the estimator from the array it is given"""
+        """methods in the closure of `roots` that call `validate_data(self, ..)` with `reset` omitted or the literal True: sklearn's
+        default `reset=True` REWRITES `n_features_in_` / `feature_names_in_` of the estimator from the array it is given (finding
+        F5g, repaired by `reset=False`).  `reset=False` -> not listed; any other value of `reset` is refused."""
         out = set()
         for mn in self.closure(roots):
             for n in ast.walk(self.methods[mn]):
@@ -299,8 +300,10 @@ class ClassView:
                     if None in kw:
                         self.bad(n, "validate_data(self, .., **kwargs): cannot see `reset`")
                     r = kw.get("reset")
-                    if not (isinstance(r, ast.Constant) and r.value is False):
-                        out.add(mn)
+                    if r is None or (isinstance(r, ast.Constant) and r.value is True):
+                        out.add(mn)                     # omitted (sklearn's default) or the literal True: the attributes are rewritten
+                    elif not (isinstance(r, ast.Constant) and r.value is False):
+                        self.bad(n, f"validate_data(self, .., reset={ast.unparse(r)}): `reset` is neither omitted nor a literal True / False")
         return sorted(out)
 
     # ------------------------------------------------------------------ return analysis
